@@ -24,7 +24,7 @@ TITLE = "Rearranging dimensions preserves every element's label coordinates"
 RULE = ("generated arrays of 0-4 dims whose axes differ in kind and length, and deliberately square arrays with identical label vectors; for "
         "each array ALL permutations for transpose (names, positions, mixed, list and varargs, T for ndim <= 2), all axis pairs for swapaxes, "
         "all (axis, start) for rollaxis, all insertion positions for newaxis (with / without values), squeeze (all / one axis), repeat (int, "
-        "labels, Axis), generated broadcast targets (DimArray, list of Axis, OrderedDict; extra and reordered dims), broadcast_arrays of 2-3 "
+        "labels, Axis), generated broadcast targets (DimArray, list of Axis, OrderedDict; extra and reordered dims; target axes of length 0), broadcast_arrays of 2-3 "
         "arrays, and compositions (transpose then inverse, newaxis then squeeze, swapaxes twice, rollaxis vs transpose).  A sub-case is "
         "non-trivial when ndim >= 2 and the rearrangement is not the identity.")
 ASSUMPTIONS = [
@@ -32,7 +32,7 @@ ASSUMPTIONS = [
     "T is exercised for ndim <= 2 only (documented: transpose() without arguments needs explicit dims for ndim > 2)",
     "broadcast targets contain all of the array's non-singleton dimensions with the same labels (documented usage)",
 ]
-MANDATORY = ["broadcast:omits-singleton", "transpose", "swapaxes", "rollaxis", "newaxis", "newaxis:values", "squeeze", "repeat", "broadcast", "broadcast_arrays",
+MANDATORY = ["broadcast:empty-target-axis", "broadcast:omits-singleton", "transpose", "swapaxes", "rollaxis", "newaxis", "newaxis:values", "squeeze", "repeat", "broadcast", "broadcast_arrays",
              "square-equal-labels", "composition", "ndim:4", "ndim:0"]
 
 ATTRS = {"units": "m", "hist": [1, {"k": 2}], "_FillValue": -999, "max": 3}        # (any key may be metadata: underscore names, names of methods)
@@ -58,7 +58,7 @@ def case_st(draw):
         if draw(st.integers(0, 4)) == 0:
             spec["labels"][i] = spec["labels"][i][:1]
     extra = [d for d in ["p", "q"] if draw(st.booleans())]
-    return {"spec": spec, "square": square, "extra": extra, "extra_labels": [draw(gen.labels(draw(st.integers(1, 3)))) for _ in extra],
+    return {"spec": spec, "square": square, "extra": extra, "extra_labels": [draw(gen.labels(draw(st.integers(1, 3)))) for _ in extra], "empty_target": draw(st.integers(0, 5)) == 0,
             "border": draw(st.integers(0, 1000)), "rep_labels": draw(gen.labels(draw(st.integers(1, 3))))}
 
 
@@ -279,9 +279,16 @@ def run_case(case):
                 tl[d] = lab_of[d] if len(lab_of[d]) > 1 or rnd % 2 else list(case["rep_labels"])   # singleton dims may be repeated to new labels
             else:
                 tl[d] = case["extra_labels"][case["extra"].index(d)]
-        taxes = [da.Axis(core.label_array(tl[d]), d) for d in tdims]
+        if case.get("empty_target"):
+            # a target axis without any label (length 0 is a length): a new dimension, or one that the array holds as a singleton
+            for d in tdims[::-1]:
+                if d not in dims or len(lab_of[d]) == 1:
+                    tl[d] = []
+                    cl.add("broadcast:empty-target-axis")
+                    break
+        taxes = [da.Axis(core.label_array(tl[d]) if tl[d] else np.array([], dtype=float), d) for d in tdims]
         targets = [("list-of-Axis", list(taxes)), ("DimArray", da.DimArray(np.zeros([len(tl[d]) for d in tdims]), axes=[ax.copy() for ax in taxes])),
-                   ("OrderedDict", OrderedDict((d, core.label_array(tl[d])) for d in tdims))]
+                   ("OrderedDict", OrderedDict((d, core.label_array(tl[d]) if tl[d] else np.array([], dtype=float)) for d in tdims))]
         newd = [d for d in tdims if d not in dims or (len(lab_of[d]) == 1 and len(tl[d]) != 1)] + omitted
         if omitted:
             cl.add("broadcast:omits-singleton")
